@@ -14,10 +14,18 @@ SKIP_TABLES = O.BOOKKEEPING_TABLES + ('django_content_type',)
 
 
 class History(object):
-    def __init__(self, v0, steps, deps=None):
+    def __init__(self, v0, steps, deps=None, sql_files=None):
         self.v0 = v0
         self.steps = steps          # [(label, elabel, [mj, ...]), ...]
         self.deps = deps or {}      # {(label, elabel): {attr: value}}
+        # {(label, elabel): {file name: text}}: the evolution is shipped as
+        # SQL file(s) instead of a Python module (its step has no mutations)
+        self.sql_files = dict(sql_files or {})
+        for label, elabel, mjs in steps:
+            # ['SQLFile', {file name: text}] as the only "mutation" of a
+            # step is the same thing written inside the step list
+            if len(mjs) == 1 and mjs[0][0] == 'SQLFile':
+                self.sql_files[(label, elabel)] = dict(mjs[0][1])
         self.specs = [v0]
         cur = v0
         for label, elabel, mjs in steps:
@@ -47,8 +55,12 @@ class History(object):
             label = app['label']
             seq = self.sequence(label, j)
             mods = {}
+            files = {}
             for (l, el, mjs) in self.steps[:j]:
                 if l != label:
+                    continue
+                if (l, el) in self.sql_files:
+                    files.update(self.sql_files[(l, el)])
                     continue
                 body = {'MUTATIONS': [ML.to_real(mj) for mj in mjs]}
                 body.update(self.deps.get((l, el), {}))
@@ -56,6 +68,8 @@ class History(object):
             if seq or all_apps_have_evolutions:
                 evos[label] = {'SEQUENCE': seq, 'modules': mods,
                                'top': self.deps.get((label, None), {})}
+                if files:
+                    evos[label]['sql_files'] = files
         return MZ.install(spec, evolutions=evos)
 
     def describe(self):
@@ -63,6 +77,9 @@ class History(object):
         if self.deps:
             d['deps'] = [[list(k), v] for k, v in sorted(
                 self.deps.items(), key=lambda kv: str(kv[0]))]
+        if self.sql_files:
+            d['sql_files'] = [[list(k), v] for k, v in sorted(
+                self.sql_files.items(), key=lambda kv: str(kv[0]))]
         return d
 
 
